@@ -179,7 +179,7 @@ int main(int argc, char **argv)
 	GlobalLogger::set_levels(Logger::Levels(Logger::None));
 	const uint64_t seed = a.num("seed", 1);
 	const long long start = a.num("start", 0), cases = a.num("cases", 1);
-	R.case_seconds = 120;
+	R.case_seconds = (unsigned)a.num("case-seconds", 120);
 	for (long long n = start; n < start + cases; ++n) one_case(n, seed, a.str("dir", "."));
 	R.done();
 	return 0;
